@@ -745,3 +745,8 @@ def run(idx, rep, tier):
              'it on every path')
     water_mark_table(k, 'C08.R9')
     communicate_resumes(k, 'C08.R9')
+    from .c20 import backpressure_table
+    rep.rule('C08.R10', 'forwarder back-pressure (= clause of C20.R3): '
+             'pause_writing / resume_writing always reach the peer, whatever '
+             'the EOF state of this side')
+    backpressure_table(k, 'C08.R10')
